@@ -14,6 +14,7 @@
 
 #include <algorithm>
 #include <array>
+#include <atomic>
 #include <chrono>
 #include <memory>
 #include <sstream>
@@ -240,15 +241,19 @@ namespace Pistache
         public:
             friend class ResponseWriter;
 
+            // The armed state is shared with the continuation that runs when the timer fires:
+            // the ResponseWriter - and this object with it - may have been moved by then.
             explicit Timeout(Timeout&& other)
                 : handler(other.handler)
+                , version(other.version)
                 , transport(other.transport)
-                , armed(other.armed)
+                , armed(std::move(other.armed))
                 , timerFd(other.timerFd)
                 , peer(std::move(other.peer))
             {
                 // cppcheck-suppress useInitializationList
                 other.timerFd = -1;
+                other.armed.reset();
             }
 
             Timeout& operator=(Timeout&& other)
@@ -256,9 +261,10 @@ namespace Pistache
                 handler       = other.handler;
                 transport     = other.transport;
                 version       = other.version;
-                armed         = other.armed;
+                armed         = std::move(other.armed);
                 timerFd       = other.timerFd;
                 other.timerFd = -1;
+                other.armed.reset();
                 peer          = std::move(other.peer);
                 return *this;
             }
@@ -273,15 +279,22 @@ namespace Pistache
                     transport->armTimer(timerFd, duration, std::move(deferred));
                 });
 
+                // nothing of *this is used when the timer fires: the object may be gone
+                auto state          = armed;
+                const Fd fd         = timerFd;
+                Handler* h          = handler;
+                const auto v        = version;
+                Tcp::Transport* tr  = transport;
+                const auto weakPeer = peer;
                 p.then(
-                    [=](uint64_t numWakeup) {
-                        this->armed = false;
-                        this->onTimeout(numWakeup);
-                        close(timerFd);
+                    [=](uint64_t) {
+                        state->store(false);
+                        onTimeout(h, v, tr, weakPeer);
+                        close(fd);
                     },
                     [=](std::exception_ptr exc) { std::rethrow_exception(exc); });
 
-                armed = true;
+                armed->store(true);
             }
 
             void disarm();
@@ -294,12 +307,13 @@ namespace Pistache
             Timeout(Tcp::Transport* transport_, Http::Version version, Handler* handler_,
                     std::weak_ptr<Tcp::Peer> peer_);
 
-            void onTimeout(uint64_t numWakeup);
+            static void onTimeout(Handler* handler, Http::Version version, Tcp::Transport* transport,
+                                  const std::weak_ptr<Tcp::Peer>& peer);
 
             Handler* handler;
             Http::Version version;
             Tcp::Transport* transport;
-            bool armed;
+            std::shared_ptr<std::atomic<bool>> armed;
             Fd timerFd;
             std::weak_ptr<Tcp::Peer> peer;
         };
